@@ -194,7 +194,7 @@ static void sweep_huge(SweepSink &sk) {
 // is exact and independent: "update over one tile" is an affine map of the CRC register over GF(2); its matrix is measured with the bit-level
 // reference (width + 1 passes over the tile), applied once per tile, and the ragged head/tail go through the reference directly.
 #include <sys/syscall.h>
-static const size_t TILE = 1u << 20, NTILES = 8200;
+static const size_t TILE = 1u << 20, NTILES = 8200, ODD0 = 4096; // tiles ODD0 and ODD0+1 differ from all others
 static uint8_t *g_huge;
 static uint8_t *huge_map() {
 	if (g_huge) return g_huge;
@@ -208,6 +208,11 @@ static uint8_t *huge_map() {
 	for (size_t i = 0; i < NTILES; i++)
 		if (mmap(base + i * TILE, TILE, PROT_READ, MAP_SHARED | MAP_FIXED, fd, 0) == MAP_FAILED) throw Skip("cannot map tile");
 	close(fd);
+	// two tiles right behind the 4 GiB mark have their own content: a kernel that restarts or wraps to a wrong offset must not see the same bytes there
+	uint8_t *odd = (uint8_t *) mmap(base + ODD0 * TILE, 2 * TILE, PROT_READ | PROT_WRITE, MAP_PRIVATE | MAP_ANONYMOUS | MAP_FIXED, -1, 0);
+	if (odd == MAP_FAILED) throw Skip("cannot map the distinct tiles");
+	for (size_t i = 0; i < 2 * TILE; i++) odd[i] = (uint8_t) (mix64(0xBEEF + (i >> 3)) >> ((i & 7) * 8));
+	mprotect(odd, 2 * TILE, PROT_READ);
 	return g_huge = base;
 }
 static void body_huge(Tape &t, Ctx &c) {
@@ -228,10 +233,15 @@ static void body_huge(Tape &t, Ctx &c) {
 	uint64_t head = std::min<uint64_t>(len, (TILE - off % TILE) % TILE), ntile = (len - head) / TILE, tail = (len - head) % TILE;
 	uint64_t st = F.run(seed, p, (size_t) head);
 	if (ntile) {
-		const uint8_t *tp = base; // every tile has the same bytes
+		const uint8_t *tp = base; // every tile except ODD0, ODD0+1 has the same bytes
 		uint64_t c0 = F.run(0, tp, TILE), col[64];
 		for (int i = 0; i < w; i++) col[i] = F.run(1ull << i, tp, TILE) ^ c0;
-		for (uint64_t n = 0; n < ntile; n++) { uint64_t nx = c0; for (int i = 0; i < w; i++) if (st >> i & 1) nx ^= col[i]; st = nx; }
+		uint64_t first_tile = (off + head) / TILE;
+		for (uint64_t n = 0; n < ntile; n++) {
+			uint64_t ti = first_tile + n;
+			if (ti == ODD0 || ti == ODD0 + 1) { st = F.run(st, base + ti * TILE, TILE); continue; }
+			uint64_t nx = c0; for (int i = 0; i < w; i++) if (st >> i & 1) nx ^= col[i]; st = nx;
+		}
 		// the affine shortcut itself is cross-checked on two tiles
 		if (F.run(F.run(0x5a5a & M, tp, TILE), tp, TILE) != [&] { uint64_t a = 0x5a5a & M; for (int r = 0; r < 2; r++) { uint64_t nx = c0; for (int i = 0; i < w; i++) if (a >> i & 1) nx ^= col[i]; a = nx; } return a; }())
 			throw OracleBug("affine tile map disagrees with the reference CRC");
